@@ -865,7 +865,9 @@ namespace awkward {
 
   const ContentPtr
   UnmaskedArray::fillna(const ContentPtr& value) const {
-    return content_.get()->fillna(value);
+    // like the other option types: only this level's (non-existent) missing values are replaced;
+    // options deeper in the content are another level's business
+    return content_;
   }
 
   const ContentPtr
